@@ -130,6 +130,15 @@ class Read(Suite):
                 text, rows, comments = make_text(rng, ids, pp, n_extra=nx, with_tail=(mode == "tail"))
                 case = {"class": mode, "mode": mode, "rows": rows, "comments": comments, "n_extra": nx,
                         "reset_index": rng.random() < 0.5, "source": rng.choice(["text", "bytes", "path"])}
+                if mode == "plain" and rng.random() < 0.5:
+                    # the `encoding` option: a comment with non-ASCII text, the file stored in that encoding (or utf-8 with 'detect')
+                    enc = rng.choice(["latin-1", "utf-16", "utf-8", "detect", "cp1252"])
+                    note = " Zellkörper é ü"
+                    text = "#" + note + ("\r\n" if "\r\n" in text else "\n") + text
+                    case["comments"] = [note] + comments
+                    case["encoding"] = enc
+                    case["source"] = rng.choice(["bytes", "path"])
+                    case["class"] = "plain/encoding-" + enc
                 if mode in ("malformed", "population"):
                     kind = rng.choice(MALFORM)
                     ls = text.split("\n")
@@ -146,6 +155,22 @@ class Read(Suite):
                     case["source"] = rng.choice(["bytes", "path"])
                 case["text"] = text
                 out.append(case)
+        # ESWC: the five extra columns of the format (and the caller's own before them), read through the tree front end — twice with the
+        # same option objects, as a loop over files does
+        for own in (0, 1, 2):
+            for _ in range(2):
+                pids = gen.parents_sorted(rng, rng.choice([2, 4, 7]), "random")
+                text, rows, comments = make_text(rng, [i + 1 for i in range(len(pids))], [-1 if p < 0 else p + 1 for p in pids], n_extra=own + 5)
+                out.append({"class": f"eswc/own{own}", "mode": "eswc", "rows": rows, "comments": comments, "n_extra": own + 5, "own": own,
+                            "reset_index": True, "source": "text", "text": text})
+        # the `encoding` option, every value with both binary source kinds
+        for enc in ["latin-1", "utf-16", "utf-8", "detect", "cp1252"]:
+            for src in ["bytes", "path"]:
+                pids = gen.parents_sorted(rng, 4, "random")
+                text, rows, comments = make_text(rng, [i + 1 for i in range(len(pids))], [-1 if p < 0 else p + 1 for p in pids])
+                note = " Zellkörper é ü"
+                out.append({"class": "plain/encoding-" + enc, "mode": "plain", "rows": rows, "comments": [note] + comments, "n_extra": 0, "reset_index": False,
+                            "source": src, "encoding": enc, "text": "#" + note + "\n" + text})
         return out
 
     def run(self, case):
@@ -153,17 +178,34 @@ class Read(Suite):
         from swcgeom.core.swc_utils import read_swc
 
         text = case["text"]
-        data = text.encode("utf-8")
+        enc = case.get("encoding")
+        data = text.encode("utf-8" if enc in (None, "detect") else enc)
         if case["mode"] == "bytes-bad":
             data = data[: len(data) // 2] + b"\xff\xfe\xfa" + data[len(data) // 2:]
         tmp = None
         kw = {}
+        if enc:
+            kw["encoding"] = enc
         if case["mode"] == "sorted-read":
             kw["sort_nodes"] = True
         else:
             kw["reset_index"] = case["reset_index"]
         if case["n_extra"]:
             kw["extra_cols"] = [f"e{i}" for i in range(case["n_extra"])]
+        if case["mode"] == "eswc":
+            from swcgeom.core import Tree
+
+            own = [f"own{j}" for j in range(case["own"])]
+            opts = list(own)
+            out_ = []
+            with warnings.catch_warnings():
+                warnings.simplefilter("ignore")
+                for _rep in range(2):
+                    t = Tree.from_eswc(io.StringIO(text), extra_cols=opts) if case["own"] or _rep else Tree.from_eswc(io.StringIO(text))
+                    names = own + ["level", "mode", "timestamp", "teraflyindex", "feature_value"]
+                    out_.append({"keys": sorted(str(k) for k in t.keys()), "extra": {k: [float(v) for v in t.get_ndata(k)] if k in t.keys() else None for k in names},
+                                 "x": [float(v) for v in t.x()], "pid": t.pid().tolist()})
+            return {"eswc": out_, "via": "eswc", "df": {"id": list(range(len(case["rows"])))}, "comments": [], "warnings": []}
         try:
             if case["mode"] == "population":
                 tmp = tempfile.mkdtemp(prefix="c02_")
@@ -217,6 +259,14 @@ class Read(Suite):
             what = "undecodable bytes" if mode == "bytes-bad" else f"malformed line ({case['bad']}) at the {case.get('bad_pos')} position"
             return [(f"malformed-accepted/{'decode' if mode == 'bytes-bad' else 'row'}",
                      f"{what}: reading returned a table with {n_got} rows (file has {len(rows)} valid rows) instead of raising; via {res['via']}")]
+        if mode == "eswc" and "exc" not in res:
+            names = [f"own{j}" for j in range(case["own"])] + ["level", "mode", "timestamp", "teraflyindex", "feature_value"]
+            for rep, o in enumerate(res["eswc"]):
+                for j, k in enumerate(names):
+                    want = [float(np.float32(r["extra"][j])) for r in rows]
+                    if o["extra"][k] is None or any(abs(a - b) > 1e-6 * max(1.0, abs(b)) for a, b in zip(o["extra"][k], want)):
+                        return [("eswc-column", f"read #{rep + 1}: column {k} of Tree.from_eswc is {str(o['extra'][k])[:60]}, the file says {want[:6]}")]
+            return []
         if "exc" in res:
             return [("valid-text-rejected", f"well-formed text rejected with {res['exc']}: {res.get('msg')}; text={case['text'][:200]!r}")]
         df = res["df"]
